@@ -203,15 +203,29 @@ class ArffLineReader(Filter[str, Sequence[str]]):
 
         return self.filter(line)
 
-    def _sparse(self, line:str) -> Mapping[int,str]:
-        keys_and_vals = re.split('\s*,\s*|\s+', line.strip("} {"))
+    _r_sparse_item = r"""\s*(\d+)\s+('(?:[^'\\]|\\.)*'|"(?:[^"\\]|\\.)*"|[^,\s'"]+)\s*"""
+    _r_sparse_one  = re.compile(_r_sparse_item)
+    _r_sparse_all  = re.compile(f"{_r_sparse_item}(?:,{_r_sparse_item})*")
 
-        if keys_and_vals != ['']:
-            keys = list(map(int,keys_and_vals[0::2]))
-            vals = keys_and_vals[1::2]
+    def _sparse(self, line:str) -> Mapping[int,str]:
+
+        if "'" in line or '"' in line:
+            #a quoted value can hold blanks and commas so the row can't simply be split on them
+            inner = line.strip("} {")
+            if not self._r_sparse_all.fullmatch(inner):
+                raise CobaException(f"We were unable to parse a line in a way that matched the expected attributes.")
+            items = self._r_sparse_one.findall(inner)
+            keys  = [int(k) for k,_ in items]
+            vals  = [re.sub(r"\\(.)", r"\1", v[1:-1]) if v[0] in self._quotes else v for _,v in items]
         else:
-            keys = []
-            vals = []
+            keys_and_vals = re.split('\s*,\s*|\s+', line.strip("} {"))
+
+            if keys_and_vals != ['']:
+                keys = list(map(int,keys_and_vals[0::2]))
+                vals = keys_and_vals[1::2]
+            else:
+                keys = []
+                vals = []
 
         parsed = dict(zip(keys,vals))
         if parsed and (min(parsed.keys()) < 0 or self._n_columns <= max(parsed.keys())):
